@@ -260,7 +260,7 @@ def weights_stage(ctx, binary, stats, hist, only=None):
             lines.append("utwd %d %d %d %d %s %s %s" % (lin, circ, noise, 1 if quat else 0, hexd(a), hexd(b), hexd(k)))
     register("weights", [(l, {"case": list(c[:5])}) for l, c in zip(lines, cases)])
     hout, logs = run_h(binary, lines)
-    dout = vlib.run_driver(lines)
+    dout = vlib.run_driver([("utwl" + l[4:]) if l.startswith("utwd ") else l for l in lines])   # utwl: BFL.UTWeight.ofLayout
     prop_bad, corr_bad = [], []
     for (op, nn, a, b, k, _), line, h, d in zip(cases, lines, hout, dout):
         hist["weights:" + op] = hist.get("weights:" + op, 0) + 1
@@ -470,6 +470,52 @@ def points_stage(ctx, binary, stats, hist, only=None):
             cur_n += z
         meta["aug_means"], meta["aug_covs"], meta["n"] = means, covs, cur_n
     aout = vlib.run_driver(aug_lines)
+    # storage-level model (BFL.augmentStore: in-place relocation of the blocks, last component first) on the same
+    # inputs, the same loop in ascending order (executed counterexample), and the history model (AnyGM.augmentAll)
+    st_lines, st_meta, hist_lines, hist_idx = [], [], [], []
+    for ci, (line, meta) in enumerate(cases):
+        n0, k = meta["lin"], meta["k"]
+        covs = [fmat(P) for P in meta["Ps"]]
+        cur_n = n0
+        for qi, Q in enumerate(meta["Qs"]):
+            z = len(Q)
+            toks = [str(cur_n), str(z), str(k)] + [fstr(covs[i][a][b]) for i in range(k) for b in range(cur_n) for a in range(cur_n)] + cm_tokens(Q, fstr)
+            covs = [blockdiag(P, Q) for P in covs]
+            cur_n += z
+            st_lines.append("augst " + " ".join(toks))
+            st_meta.append((ci, "desc", covs, cur_n, k, qi == len(meta["Qs"]) - 1))
+            if k >= 3:
+                st_lines.append("augsa " + " ".join(toks))
+                st_meta.append((ci, "asc", covs, cur_n, k, False))
+        if meta["Qs"]:
+            toks = ["augh", str(n0), str(k), str(len(meta["Qs"]))] + [str(len(Q)) for Q in meta["Qs"]]
+            toks += [hexd(meta["means"][i][j]) for i in range(k) for j in range(n0)]
+            toks += [hexd(meta["Ps"][i][a][b]) for i in range(k) for b in range(n0) for a in range(n0)]
+            for Q in meta["Qs"]:
+                toks += cm_tokens(Q)
+            hist_lines.append(" ".join(toks))
+            hist_idx.append(ci)
+    st_out = vlib.run_driver(st_lines)
+    hist_out = dict(zip(hist_idx, vlib.run_driver(hist_lines)))
+    store_final = {}
+    store_bad = []
+    for (ci, kind, want, nn, k, last), line_, o_ in zip(st_meta, st_lines, st_out):
+        ok_ = o_.startswith("ok")
+        got = None
+        if ok_:
+            t_ = o_.split()[1:]
+            ok_ = len(t_) == nn * nn * k
+            if ok_:
+                got = [vlib.mat_from_cm(t_[i * nn * nn:(i + 1) * nn * nn], nn, nn, frac) for i in range(k)]
+        if kind == "desc":
+            hist["augmentStore:steps"] = hist.get("augmentStore:steps", 0) + 1
+            if got != want:
+                store_bad.append(("augment-store-model", "BFL.augmentStore (in-place relocation, last component first) does not yield blockdiag(P_i, Q) (%d components)" % k, cases[ci][0], o_[:60]))
+            if last:
+                store_final[ci] = got
+        else:
+            key_ = "augmentStoreAsc(executed counterexample, components>=3):" + ("differs from blockdiag(P_i,Q)" if got != want else "agrees")
+            hist[key_] = hist.get(key_, 0) + 1
     # model output of the last augmentation of each case
     last_model = {}
     pos = 0
@@ -516,9 +562,24 @@ def points_stage(ctx, binary, stats, hist, only=None):
             mcovs = [vlib.mat_from_cm(mt[nn * k + i * nn * nn: nn * k + (i + 1) * nn * nn], nn, nn, frac) for i in range(k)]
             if mmeans != meta["aug_means"] or mcovs != meta["aug_covs"]:
                 corr_bad.append(("augment-model", "Lean augmentWithNoise differs from [m;0], blockdiag(P,Q)", line, h))
+            if store_final.get(ci) is not None and store_final[ci] != ccovs:
+                corr_bad.append(("augment-store-vs-impl", "storage after augmentWithNoise differs from the storage-level model BFL.augmentStore", line, h))
+            ho_ = hist_out.get(ci, "")
+            okh = ho_.startswith("ok")
+            if okh:
+                th_ = ho_.split()[1:]
+                okh = int(th_[0]) == n and len(th_) == 1 + n * k + n * n * k
+                if okh:
+                    hm_ = [[frac(th_[1 + i * n + r_]) for r_ in range(n)] for i in range(k)]
+                    hc_ = [vlib.mat_from_cm(th_[1 + n * k + i * n * n:1 + n * k + (i + 1) * n * n], n, n, frac) for i in range(k)]
+                    okh = hm_ == cmeans and hc_ == ccovs
+            hist["augmentAll(history model):cases"] = hist.get("augmentAll(history model):cases", 0) + 1
+            if not okh:
+                corr_bad.append(("augment-history-vs-impl", "mixture after %d augmentWithNoise calls differs from the history model AnyGM.augmentAll" % len(meta["Qs"]), line, h))
         probs, _ = check_points_linear(X, cmeans, ccovs, Fraction(meta["c"]), n, k, stats, key)
         for key2, what in probs:
             prop_bad.append((key2, what, line, h))
+    corr_bad += store_bad
     # the guard of augmentWithNoise (non-square matrix refused): outside the property's quantifier, counted only
     if not ctx.replay:
         gl = []
@@ -874,6 +935,13 @@ def compare_ut(meta, o, mo, stats):
         ccov = [[o["cov"][a][ny * i + c] for c in range(ny)] for a in range(ny)]
         ccross = [[o["cross"][a][ny * i + c] for c in range(ny)] for a in range(nx)]
         smean, scov, scross = cf[i]
+        if "far" in meta.get("scale", "") and ny * N1 <= 400:
+            swm_, swc_, _c = weights_frac(n, meta["alpha"], meta["beta"], meta["kappa"])
+            Yx = [[sum(A[a][l] * Xi[l][j] for l in range(n)) + b[a] for j in range(N1)] for a in range(ny)]
+            toks_ = ["utnv", str(ny), str(N1)] + [hexd(float(w_)) for w_ in swc_] + [hexd(float(Yx[a][j])) for j in range(N1) for a in range(ny)] + [hexd(float(v_)) for v_ in cmean]
+            stats.setdefault("_utnv", []).append((" ".join(toks_), [[float(x_) for x_ in row_] for row_ in ccov], [[float(x_) for x_ in row_] for row_ in scov],
+                                                  [[tol_cov[a][c] + tsq * rowsum[a] * rowsum[c] for c in range(ny)] for a in range(ny)], meta["mode"], i,
+                                                  [[float(x_) for x_ in row_] for row_ in meta["Nadd"]] if meta["Nadd"] is not None else None))
         for r in range(ny):
             em = float(abs(cmean[r] - mo["mean"][i][r]))
             es = float(abs(cmean[r] - smean[r]))
@@ -1032,6 +1100,26 @@ def transform_stage(ctx, binary, stats, hist, notes, only=None):
                     probs += compare_ut(meta, o, mo, stats)
         for kind, key2, what in probs:
             (prop_bad if kind == "prop" else corr_bad).append((key2, what, line, h))
+    # means / offsets far from the origin: the model's covariance of the offsets and the expanded formula
+    # (BFL.utCovNaive, equal over a field: ut_naive_eq_offsets), both executed on Float on the propagated points
+    nv = stats.pop("_utnv", [])
+    nvo = vlib.run_driver([x[0] for x in nv])
+    for (l_, ccov_, scov_, tol_, mode_, i_, nadd_), o_ in zip(nv, nvo):
+        hist["far:float-model-cases"] = hist.get("far:float-model-cases", 0) + 1
+        if not o_.startswith("ok"):
+            corr_bad.append(("far-model-undefined", "utnv: %s" % o_[:40], l_, ""))
+            continue
+        ny_ = len(ccov_)
+        v_ = [unhex(x_) for x_ in o_.split()[1:]]
+        off_ = [[v_[c * ny_ + a] + (nadd_[a][c] if nadd_ else 0.0) for c in range(ny_)] for a in range(ny_)]
+        nai_ = [[v_[ny_ * ny_ + c * ny_ + a] + (nadd_[a][c] if nadd_ else 0.0) for c in range(ny_)] for a in range(ny_)]
+        e1 = max(abs(off_[a][c] - ccov_[a][c]) / tol_[a][c] for a in range(ny_) for c in range(ny_))
+        e2 = max(abs(nai_[a][c] - scov_[a][c]) / tol_[a][c] for a in range(ny_) for c in range(ny_))
+        stats["far_cov_float_model"] = max(stats.get("far_cov_float_model", 0.0), e1)
+        if e1 > 1.0:
+            corr_bad.append(("far-cov-vs-float-model", "%s overload, component %d: covariance differs from the Float execution of the model (offsets form) by %.3g tolerances" % (mode_, i_, e1), l_, ""))
+        key_ = "far:expanded-formula-on-Float " + ("outside the tolerance (the case tells the two forms apart)" if e2 > 1.0 else "within the tolerance")
+        hist[key_] = hist.get(key_, 0) + 1
     return cases, lines, prop_bad, corr_bad, len(logs)
 
 
@@ -1691,6 +1779,12 @@ def run(ctx):
         d.update(extra or {})
         return d
 
+    by_class = {}
+    for key2, what, line, h in prop_bad:
+        m_ = (REG.get(line, (None, None))[1]) or {}
+        tag = "%s | %s %s" % (key2, m_.get("scale", m_.get("style", "?")), m_.get("pstyle", ""))
+        by_class[tag] = by_class.get(tag, 0) + 1
+    ctx.coverage["failing_cases_by_generator_class"] = by_class
     seen = set()
     for key2, what, line, h in prop_bad:
         if key2 in seen:
